@@ -296,7 +296,10 @@ def main(tier, seed):
                samples=[dict(signature="wishbone.Signature(addr_width=2, data_width=32, granularity=8, features=('err','cti'))",
                              checks=["create() round trip", "members", "== against every other signature of the grid"]),
                         dict(connect="wishbone.Interface(0,16) -> wishbone.Decoder(addr_width=0, data_width=16).bus")])
-    return finish(PID, tier, seed, "exploration", cov, ASSUMPTIONS, t0, [dict(cfg=None, violations=viols)])
+    res = dict(cfg=None, violations=viols)
+    if stats["refused"] > 5 or stats["connects"] < 200:
+        res["tool_error"] = f"vacuity guard: {stats['refused']} component configurations refused, {stats['connects']} connect() checks made"
+    return finish(PID, tier, seed, "exploration", cov, ASSUMPTIONS, t0, [res])
 
 
 ASSUMPTIONS = [
